@@ -216,7 +216,7 @@ def run_property(pid, tier, seed, mod):
         "distinct_nontrivial": nontriv,
         "traces_validated_against_impl": evaluations if model_ok else 0,
         "rule": "; ".join("%s: %s" % (r["name"], r["desc"]) for r in stream_results),
-        "streams": [{k: r[k] for k in ("name", "n", "nontrivial", "exhaustive") if k in r} |
+        "streams": [{k: r[k] for k in ("name", "n", "nontrivial", "exhaustive", "in_coq_replayed", "unaligned_runs", "distribution") if k in r} |
                     {"mismatches": len(r["mismatch"]) + r.get("mismatch_more", 0),
                      "oracle_failures": len(r["oracle"]) + r.get("oracle_more", 0)} for r in stream_results],
         "samples": [s for r in stream_results for s in r.get("samples", [])][:12],
